@@ -281,6 +281,15 @@ func (e *Exec) signbit(a *Term) *Term {
 
 func init() {
 	intrinsics = map[string]intrinsic{
+		// strings.Builder.Grow: an uninitialised byte slice; the zeroed one is a valid instance (callers
+		// never read it before writing: its length is what they append to)
+		"internal/bytealg.MakeNoZero": func(e *Exec, fn *ssa.Function, args []Value) Value {
+			n := e.concreteInt(args[0].(*Term), types.Typ[types.Int], "MakeNoZero len")
+			if n < 0 || n > 1<<22 {
+				e.runtimePanic("makeslice: len out of range")
+			}
+			return SliceV{arr: e.newArr(types.Typ[types.Byte], int(n)), off: 0, len: int(n), cap: int(n)}
+		},
 		"math.Float64bits":     f1(func(e *Exec, a *Term) Value { return e.fToBits(a) }),
 		"math.Float32bits":     f1(func(e *Exec, a *Term) Value { return e.fToBits(a) }),
 		"math.Float64frombits": f1(func(e *Exec, a *Term) Value { return e.fFromBits(a) }),
